@@ -30,12 +30,23 @@ structure Config where
   siblings : Nat
 deriving Repr, DecidableEq
 
-/-- `DBConfig::new`: only the page size is adjusted. -/
+/-- fewest keys per page the B+tree works with (`MIN_KEYS_PER_PAGE`, asserted by `Btree::new`) -/
+def treeMinKeys : Nat := 3
+
+/-- `DBConfig::new`: the page size is normalised, min keys raised to the tree's minimum. -/
 def Config.new (page cache pool minKeys siblings : Nat) : Config :=
+  { pageSize := clampPage page, cacheSize := cache, poolSize := pool, minKeys := max minKeys treeMinKeys, siblings := siblings }
+
+/-- `DBConfig::new` as shipped: min keys passed through unchanged (defect `minKeysBelowTreeMinimum`, fixed). -/
+def Config.newShipped (page cache pool minKeys siblings : Nat) : Config :=
   { pageSize := clampPage page, cacheSize := cache, poolSize := pool, minKeys := minKeys, siblings := siblings }
 
 /-- `DBConfig::builder().page_size(..).cache_size(..).pool_size(..).min_keys_per_page(..).num_siblings_per_side(..).build()` -/
 def Config.builder (page cache pool minKeys siblings : Nat) : Config :=
+  { pageSize := clampPage page, cacheSize := cache, poolSize := max pool 1, minKeys := max minKeys treeMinKeys, siblings := siblings }
+
+/-- the builder as shipped: clamped to 2, below the tree's minimum (defect `minKeysBelowTreeMinimum`, fixed) -/
+def Config.builderShipped (page cache pool minKeys siblings : Nat) : Config :=
   { pageSize := clampPage page, cacheSize := cache, poolSize := max pool 1, minKeys := max minKeys 2, siblings := siblings }
 
 /-- the configuration fields of `PageZeroHeader` -/
